@@ -124,7 +124,7 @@ def print_parse_probes(rep):
     if not m:
         rep.fail_inconclusive('print/parse probes gave no summary')
         return
-    rep.cov['print_parse_probes'] = {'values': int(m.group(1)), 'failing': int(m.group(2)), 'types': 'Date, Timestamp, TimestampTz, i16/i32/i64, bool, F64 (boundary values)',
+    rep.cov['print_parse_probes'] = {'values': int(m.group(1)), 'failing': int(m.group(2)), 'types': 'Date, Timestamp, TimestampTz, i16/i32/i64, bool, F64 (boundary values); every BLOB of one byte and of one byte followed by a hex digit / letter / backslash / quote / 0x00 / 0xFF',
                                      'note': 'concrete probes on the real build, not a solver decision'}
     seen = set()
     for ln in out.splitlines():
